@@ -1,6 +1,6 @@
 (* C02 — Integer solutions of the polyhedron are exactly the satisfying configurations.
    Only statements, `exact`, non-vacuity examples and Print Assumptions live here. *)
-Require Import Puan.Base Puan.Plog Puan.Sem Puan.EncodeFacts Puan.NegateFacts Puan.Errors Puan.ErrorsSpec Puan.Validated Puan.Link.
+Require Import Puan.Base Puan.Plog Puan.Sem Puan.EncodeFacts Puan.NegateFacts Puan.Errors Puan.ErrorsSpec Puan.Validated Puan.Link Puan.Cons Puan.SafeFacts.
 Open Scope string_scope.
 
 (* no valid configuration is lost: a satisfying leaf assignment extends to a point of the
@@ -55,6 +55,40 @@ Theorem C02_negate_safe :
     ok_signs p = true -> solver_safe p = true -> is_var p = false -> solver_safe (negate genid p) = true.
 Proof. exact negate_solver_safe. Qed.
 Print Assumptions C02_negate_safe.
+
+(* ... also where the negated node is itself NOT solver safe: a negatively signed node over
+   sub-propositions (AtMost(k, compounds)) — only its children have to be in solver-safe form *)
+Theorem C02_negate_reestablishes :
+  forall (genid : genid_t) (p : prop),
+    ok_signs p = true -> is_var p = false ->
+    (sign_of p = 1 -> solver_safe p = true) -> forallb solver_safe (children p) = true ->
+    solver_safe (negate genid p) = true.
+Proof. exact negate_reestablishes. Qed.
+Print Assumptions C02_negate_reestablishes.
+
+(* the constructors keep solver-safe form: a constructor expression that uses the positively
+   signed connectives (All, Any, AtLeast with sign +1 — the default for value > 0 —, the
+   configurator's top-level conjunction) and the connectives built from negate() (Not, Imply,
+   XNor) over arguments of the same kind, and the negatively signed connectives (AtMost, Xor,
+   AtLeast with sign -1) over atoms only, builds a model in solver-safe form whose signs are
+   all +1 / -1 — whatever ids the id generator hands out *)
+Theorem C02_constructors_keep_safe_form :
+  forall (genid : genid_t) (f : form),
+    keeps_safe f = true ->
+    solver_safe (build genid f) = true /\ ok_signs (build genid f) = true.
+Proof. exact build_keeps_safe. Qed.
+Print Assumptions C02_constructors_keep_safe_form.
+
+(* non-vacuity: XNor(Any(a,b), All(c,d), e) under All(., f) is such an expression, and the model
+   built from it contains sub-propositions under the two negate()-built parts *)
+Definition c02_gid : genid_t := fun k v s => String.concat "," k.
+Definition c02_f : form :=
+  FAll None [FXNor None [FAny None [FLeaf "a" 0 1; FLeaf "b" 0 1]; FAll None [FLeaf "c" 0 1; FLeaf "d" 0 1]; FLeaf "e" 0 1]; FLeaf "f" 0 1].
+Example C02_constructors_nonvacuous :
+  keeps_safe c02_f = true /\ solver_safe (build c02_gid c02_f) = true /\
+  (2 <= List.length (filter (fun q => negb (is_var q) && negb (forallb is_var (children q))) (nodes (build c02_gid c02_f))))%nat.
+Proof. vm_compute. repeat split; lia. Qed.
+Print Assumptions C02_constructors_nonvacuous.
 
 (* the solver-safe guard is needed: an unsafe model whose polyhedron has a point that is not a
    model.  U = AtMost(0, [B = Any(a,b)]) i.e. -(B) >= 0: x = {a=1, b=0, B=0} satisfies every row. *)
